@@ -18,7 +18,7 @@ LEVEL_NOTE = ("Random sampling of histories (no exhaustive part); shmem_control:
               "silently dropped is accepted there as long as the value it was to replace is gone too).")
 DESIGN_REF = "3/C08"
 RULE = ("case = (back-end, segment, limit, history of store/fetch/rise/remove/clear/tick). lru: limit 1..8, limit..limit+8 keys, <=150 "
-        "operations; shm: limits {0,1,2,4,8,64}, 3..9 keys, value sizes 0..1.5x segment; cycles: 2..6 (thorough 40) fill/empty rounds of "
+        "operations; shm: limits {0,1,2,4,8,64}, 3..9 keys, value sizes 0..1.5x segment; cycles: 2..48 (thorough 120) fill/empty rounds of "
         "1..8 values emptied by clear/remove/rise/expiry/overwrite. Non-trivial: an eviction happened while both an expired and a live "
         "entry existed, or a fetch moved the LRU tail before an LRU eviction (lru); the history ran under possible memory pressure (shm); "
         "every cycles case. Distinct = hash of the serialised case.")
@@ -41,17 +41,19 @@ def units(bins, tier, seed):
             us.append(Unit("c07_evict.%s-b%d-s%d-%d" % (kind, be, seg, i), [b, "--only", kind],
                            env={"C07_BACKEND": be, "C07_SEG_KIB": seg, "RC_PARAMS": rc_params(seed * 1000 + k[0], n, 200)}, group=group, timeout=3000))
             k[0] += 1
-    add("lru", 0, 0, 3000 if not thorough else 30000, 4 if not thorough else 5, "lru")
-    add("lru", 1, BIG, 3000 if not thorough else 30000, 2, "lru")
+    add("lru", 0, 0, 3000 if not thorough else 50000, 4 if not thorough else 5, "lru")
+    add("lru", 1, BIG, 3000 if not thorough else 50000, 2, "lru")
     for seg in (512, 1024, 4096):
         add("shm", 1, seg, 1000 if not thorough else 10000, 1 if not thorough else 2, "shm")
         add("cycles", 1, seg, 500 if not thorough else 4000, 1, "cycles")
-    return us
+    # one unit of each kind first (the evidence keeps the samples of the first units)
+    first = [u for u in us if u.name.endswith("-0") and ("s512" in u.name or "lru" in u.name)]
+    return first + [u for u in us if u not in first]
 
 
 def floor(tier):
     if tier == "thorough":
-        return {"lru": 7 * 30000, "shm": 6 * 10000, "cycles": 3 * 4000}
+        return {"lru": 7 * 50000, "shm": 6 * 10000, "cycles": 3 * 4000}
     return {"lru": 6 * 3000, "shm": 3 * 1000, "cycles": 3 * 500}
 
 
